@@ -348,8 +348,36 @@ def run(case, ctx):
         return out
     mark = [0]
 
+    # a second, unrelated view alive on the same controller (another
+    # allocation of the application): the two never influence each other
+    other = None
+    if case["seed"] % 4 == 3 and not case.get("huge"):
+        ob = (base + length + 64 + 3 & ~3) + 512
+        other = mcm.MemoryIO(mc, 0, 0, ob, ob + 40)
+        other_pos = 0
+        ctx.hit("sibling_view_alive")
     forgotten = False
     for op in case["ops"]:
+        if other is not None:
+            try:
+                now = other.tell()
+                check(now == other_pos, "sibling-view-position",
+                      "another view of the same controller was left at %d "
+                      "and is now at %d (after %r on this one)" %
+                      (other_pos, now, trace[-1:] and trace[-1]))
+                other_pos = (other_pos * 7 + 3) % 37
+                other.seek(other_pos)
+                if other_pos % 5 == 0:
+                    other.write(b"\x5a\xa5")
+                    other_pos += 2
+                    check(chip.rd(ob + other_pos - 2, 2) == b"\x5a\xa5",
+                          "sibling-view-write", "bytes written through the "
+                          "other view are not at its position")
+            except Violation:
+                raise
+            except Exception as e:
+                raise Violation("sibling-view-failed", "%s: %s" %
+                                (type(e).__name__, e))
         if op[0] == "forget_root":
             if not freed and len(views) > 1:
                 import gc
